@@ -37,7 +37,21 @@ class AppError(Exception):
     """app error"""
 class Plain:
     """plain base"""
+def ident(f):
+    """a decorator that returns its argument"""
+    return f
+REG = {'keep': ident}
+def fact(a):
+    """a decorator factory"""
+    return ident
+def fact2(a):
+    """a factory of decorator factories"""
+    return fact
 '''
+
+# decorators that leave the decorated object as it is: stacked above or below a kind decorator they must not change the kind
+# the interpreter gives; the last four are not dotted names (subscript, call of a call, conditional expression, lambda)
+EXTRA_DECOS = ['ident', 'base.ident', "fact('a')", "base.fact('a')", "REG['keep']", "fact2('a')('b')", '(ident if True else fact)', '(lambda f: f)']
 
 DOC_LAYOUTS = [
     ('"""One line."""', True), ('"""\n{I}Text below the opening line.\n{I}"""', True), ('"""First line.\n\n{I}Second paragraph\n{I}    indented more.\n{I}"""', True),
@@ -137,8 +151,18 @@ class Gen:
                     self.interesting = True
                 params = '' if not in_class or deco in ('staticmethod', 'old-static') else ('cls' if deco in ('classmethod', 'old-class') else 'self')
                 lines = []
+                extra_above = extra_below = None
+                if name not in rec and self.draw(st.integers(0, 3)) == 0:
+                    extra_above = self.draw(st.sampled_from(EXTRA_DECOS))
+                if name not in rec and self.draw(st.integers(0, 5)) == 0:
+                    extra_below = self.draw(st.sampled_from(EXTRA_DECOS))
+                if extra_above:
+                    lines.append(indent + '@' + extra_above)
+                    self.interesting = True
                 if deco in ('classmethod', 'staticmethod', 'property', 'cached_property'):
                     lines.append(indent + '@' + deco)
+                if extra_below:
+                    lines.append(indent + '@' + extra_below)
                 lines.append(indent + '%sdef %s(%s):' % ('async ' if is_async else '', name, params))
                 dl, dinfo = self.docstring(indent + '    ')
                 lines += dl
@@ -201,7 +225,7 @@ def st_module():
     @st.composite
     def m(draw):
         g = Gen(draw)
-        head = ['from functools import cached_property', 'from contextlib import nullcontext', 'from .base import AppError, Plain']
+        head = ['from functools import cached_property', 'from contextlib import nullcontext', 'from .base import AppError, Plain, ident, REG, fact, fact2', 'from . import base']
         dl, _ = g.docstring('')
         body = g.stmts('pk.mod', '', 0, False)
         src = '\n'.join(dl + head + body) + '\n'
